@@ -1,9 +1,14 @@
 import AcraModel.KeystoreSec.ConcurrentSeq
+import AcraModel.KeystoreSec.ConcurrentOrder
+import AcraModel.KeystoreSec.ConcurrentRefine
+import AcraModel.KeystoreSec.ConcurrentFresh
 /-!
 # C17 — concurrent keystore writers never lose each other's updates
 
 Property theorems only; the model is `KeystoreSec/Concurrent.lean` (handles as programs of back-end
-calls over one shared back end), the invariant proof is in `KeystoreSec/ConcurrentLemmas.lean`.
+calls over one shared back end), the invariant proofs are in `KeystoreSec/ConcurrentLemmas.lean` (locks, files, commit log),
+`KeystoreSec/ConcurrentOrder.lean` (snapshot-prefix invariant) and `KeystoreSec/ConcurrentRefine.lean`
+(simulation by the atomic key store).
 All theorems quantify over **every schedule** (`sched : List Nat`, any interleaving of any number
 of threads at the granularity of single back-end calls) and every program of operations per thread.
 -/
@@ -78,14 +83,50 @@ theorem mutual_exclusion (s0 : St) (h0 : Initial s0) (sched : List Nat) (i j : N
   have := hinv.holder i hi
   exact hinv.excl (by rw [this]; simp)
 
-/-- **Linearisability, no lost update.** Under every schedule, for every ring path the stored ring
-equals the sequential application – in the order of the atomic renames – of exactly the committed
-transaction lists to the initial ring, every one of them applying successfully (the optimistic
-checks held at commit time). -/
-theorem v2_linearizable (s0 : St) (h0 : Initial s0) (sched : List Nat) (p : Nat) :
+/-- **Linearisability as a refinement, no lost update.** Under every schedule the concurrent key store
+refines the *atomic* key store, in which each handle operation is one indivisible step
+(`atomicOp`: prepare the transactions from the handle's snapshot, apply them to the stored ring; success
+stores the new ring, a failed optimistic check only refreshes the snapshot, a rejected operation and a
+re-read store nothing). `linTrace s0 sched` lists the operations in the order of their linearisation
+points – each a step of the operation's own thread between its first and last step: the atomic
+`Rename` of a successful write, the `Get` under the lock of a failing write or of a re-read, the
+preparation of a rejected one. With `a` the atomic store after running `linTrace s0 sched`
+sequentially from the same rings and snapshots:
+
+1. the stored state is the sequential one: `s.cur p = a.cur p` for every ring path;
+2. the successful writes of the sequential run are exactly the commit log, in rename order, and for
+   every ring path the stored ring is the fold of the committed transaction lists over the initial ring
+   (every one applying successfully – no update is lost, none is applied twice);
+3. every operation returned what the sequential run returned at its linearisation point: per thread,
+   the results of the sequential run are the thread's finished operations with their results, in
+   program order, followed by the one operation that has passed its linearisation point but not yet
+   unlocked (`pending`; empty for an idle handle);
+4. handles that are not in the middle of a write hold the snapshot the sequential run gives them. -/
+theorem v2_linearizable (s0 : St) (h0 : Initial s0) (sched : List Nat) :
     let s := run s0 sched
-    replay (s0.cur p) (commitsOn s p) = some (s.cur p) :=
-  (run_inv s0.cur s0 sched (initial_inv s0 h0)).lin p
+    let a := atomicRun (AState.init s0) (linTrace s0 sched)
+    (∀ p, s.cur p = a.cur p) ∧
+    (committed a.log = s.commits ∧ ∀ p, replay (s0.cur p) (commitsOn s p) = some (s.cur p)) ∧
+    (∀ i, resultsOf a.log i = (s.h i).done ++ pending (s.h i)) ∧
+    (∀ i, (s.h i).pc ≠ .got → (s.h i).pc ≠ .put → (s.h i).snap = a.snap i) := by
+  intro s a
+  have hinv0 := initial_inv s0 h0
+  have hsim0 : Sim s0 (AState.init s0) :=
+    ⟨fun _ => rfl, fun _ _ _ => rfl, by intro i hi; simp [h0.idle i] at hi,
+     by intro i; simp [resultsOf, AState.init, h0.done i, pending_of_pc (s0.h i) (by simp [h0.idle i])],
+     by simp [committed, AState.init, h0.commits]⟩
+  have hsim := run_sim s0.cur s0 _ sched hinv0 hsim0
+  have hinv := run_inv s0.cur s0 sched hinv0
+  exact ⟨fun p => (hsim.cur p).symm, ⟨hsim.commits, hinv.lin⟩, hsim.res, fun i h1 h2 => (hsim.snap i h1 h2).symm⟩
+
+/-- corollary at quiescence: when handle `i` is idle, the results of its operations in the sequential
+run are exactly the results its finished operations returned -/
+theorem quiescent_results (s0 : St) (h0 : Initial s0) (sched : List Nat) (i : Nat)
+    (hq : ((run s0 sched).h i).pc = .idle) :
+    resultsOf (atomicRun (AState.init s0) (linTrace s0 sched)).log i = ((run s0 sched).h i).done := by
+  have := (v2_linearizable s0 h0 sched).2.2.1 i
+  rw [pending_of_pc _ (by simp [hq])] at this
+  simpa using this
 
 /-- **Exactly once.** Under every schedule, the transaction lists committed by a handle are exactly
 those of its operations that returned success, in program order, each once – plus the one in flight
@@ -142,19 +183,13 @@ theorem stale_snapshot_safe (s0 : St) (h0 : Initial s0) (sched : List Nat) (i : 
   have hinv := run_inv s0.cur s0 sched (initial_inv s0 h0)
   exact ⟨fun h => (hinv.gotOk i h).1, fun h => hinv.putOk i h⟩
 
-/-- **Sequence numbers stay unique** (`seqnums_unique_increasing`, partial). If the initial rings
-have pairwise different sequence numbers and imported key lists do too, then under every schedule
-every stored ring has pairwise different sequence numbers.
+/-- **Sequence numbers stay unique – even with imports** (the part of `seqnums_unique_increasing` that
+needs no exclusion). If the initial rings have pairwise different sequence numbers and imported key
+lists do too, then under every schedule every stored ring has pairwise different sequence numbers.
 
-*Partial:* the statement also says "increasing". What is missing for a proof: an invariant relating
-every handle's stale snapshot to the stored ring (the snapshot's key list is a prefix of the stored
-one and both are numbered 1..n), so that the sequence number a stale handle computes before locking
-is either present in the stored ring (→ `errTxKeyExists`) or its successor. That invariant holds
-only without import-overwrite: `txSetKeys` may shrink a ring, after which a stale handle can append
-a number *below* the last one (stored 1,2,6 + stale snapshot 1,2 ⇒ 1,2,6,3 – unique, not
-increasing; reachable only with an `ImportOverwrite` delegate, which Acra never installs). The
-increasing order is checked on every final ring of every executed schedule by the oracle
-`seqnum-order` and by trace validation. -/
+*Partial* with respect to "increasing", which is false once imports run on the ring
+(`import_overwrite_order_counterexample`, `import_stale_add_counterexample`); the full statement for
+rings without imports is `seqnums_unique_increasing` below. -/
 theorem seqnums_unique_increasing_partial (s0 : St) (h0 : Initial s0) (hok : ∀ p, RingOK (s0.cur p))
     (hops : ∀ i, ∀ op ∈ (s0.h i).todo, OpOK op) (htx : ∀ i, (s0.h i).txs = [])
     (sched : List Nat) (p : Nat) :
@@ -167,6 +202,100 @@ theorem seqnums_unique_increasing_partial (s0 : St) (h0 : Initial s0) (hok : ∀
   simp only [commitsOn, List.mem_map, List.mem_filter] at hts
   obtain ⟨c, ⟨hc, _⟩, rfl⟩ := hts
   exact ht.commits c hc t htt
+
+/-- what `seqnums_unique_increasing` needs of the initial state, for the ring path `p`: the stored ring
+is strictly increasing, every handle of that ring holds a snapshot that is a *prefix* of it – the stored
+ring continues the snapshot with consecutive numbers from the snapshot's `nextSeqnum` on (true of a
+freshly opened handle, and of any stale snapshot of a ring numbered `1..n`) – and no handle of that ring
+imports key lists (the exclusion made by the known finding `import-race-lost-update` and by the
+`ImportOverwrite` delegate; handles of *other* rings may import). -/
+structure OrderedStart (s : St) (p : Nat) : Prop where
+  incr : Incr (s.cur p)
+  snap : ∀ i, (s.h i).path = p → SnapPrefix (s.h i).snap (s.cur p)
+  noImport : ∀ i, (s.h i).path = p → ∀ op ∈ (s.h i).todo, NoImport op
+
+/-- **Sequence numbers are unique and strictly increasing in ring order, for all schedules.** For a ring
+on which no handle runs an import, under every schedule of any number of threads the stored ring's
+sequence numbers are strictly increasing in ring order (hence pairwise different), and the
+*snapshot-prefix invariant* holds throughout: every handle's possibly stale snapshot is a prefix of the
+stored ring, continued by consecutive numbers – so the number a stale handle computes before taking the
+lock is either present in the stored ring (→ `errTxKeyExists`) or the stored ring's own next number. -/
+theorem seqnums_unique_increasing (s0 : St) (h0 : Initial s0) (p : Nat) (hp : OrderedStart s0 p) (sched : List Nat) :
+    let s := run s0 sched
+    Incr (s.cur p) ∧ RingOK (s.cur p) ∧
+    ∀ i, (s.h i).path = p → (s.h i).pc ≠ .put → SnapPrefix (s.h i).snap (s.cur p) := by
+  intro s
+  have hinv := initial_inv s0 h0
+  have h0o : OrdInv p s0 :=
+    ⟨hp.incr, hp.noImport, fun i hi _ => hp.snap i hi,
+     by intro i _ hc; rcases hc with hc | hc <;> simp [h0.idle i] at hc,
+     by intro i _ hc; simp [h0.idle i] at hc⟩
+  have ho := run_ord s0.cur p s0 sched hinv h0o
+  exact ⟨ho.incr, incr_nodup _ ho.incr, ho.pre⟩
+
+/-- the same for freshly opened handles: every handle of ring `p` starts with the stored ring as its
+snapshot (what opening a ring gives) -/
+theorem seqnums_unique_increasing_fresh (s0 : St) (h0 : Initial s0) (p : Nat) (hi : Incr (s0.cur p))
+    (hfresh : ∀ i, (s0.h i).path = p → (s0.h i).snap = s0.cur p)
+    (hno : ∀ i, (s0.h i).path = p → ∀ op ∈ (s0.h i).todo, NoImport op) (sched : List Nat) :
+    Incr ((run s0 sched).cur p) :=
+  (seqnums_unique_increasing s0 h0 p ⟨hi, fun i h => by rw [hfresh i h]; exact snapPrefix_refl _, hno⟩ sched).1
+
+/-- the same for rings numbered `1..n` (what `AddKey` alone produces) and arbitrarily stale snapshots
+of them (numbered `1..m`, `m ≤ n`) -/
+theorem seqnums_unique_increasing_numbered (s0 : St) (h0 : Initial s0) (p : Nat) (n : Nat)
+    (hcur : (s0.cur p).seqs = runFrom 1 n)
+    (hsnap : ∀ i, (s0.h i).path = p → ∃ m, m ≤ n ∧ (s0.h i).snap.seqs = runFrom 1 m)
+    (hno : ∀ i, (s0.h i).path = p → ∀ op ∈ (s0.h i).todo, NoImport op) (sched : List Nat) :
+    Incr ((run s0 sched).cur p) := by
+  refine (seqnums_unique_increasing s0 h0 p ⟨?_, ?_, hno⟩ sched).1
+  · unfold Incr
+    rw [hcur]
+    have : ∀ (a : Int) (k : Nat), (runFrom a k).Pairwise (· < ·) := by
+      intro a k
+      induction k generalizing a with
+      | zero => simp [runFrom]
+      | succ k ih =>
+        rw [runFrom_snoc]
+        have h1 := incr_snoc (runFrom a k) (ih a)
+        cases k with
+        | zero => simp [runFrom]
+        | succ k =>
+          have : nextOf (runFrom a (k + 1)) = a + (k + 1 : Nat) := by rw [runFrom_snoc, nextOf_snoc]; omega
+          rw [this] at h1
+          exact h1
+    exact this 1 n
+  · intro i hi
+    obtain ⟨m, hmn, hm⟩ := hsnap i hi
+    exact snapPrefix_of_numbered _ _ m (n - m) hm (by rw [hcur]; congr 1; omega)
+
+/-- **A stale snapshot is safe, strong form: it either fails or does what a fresh handle does.** For a
+ring without imports (`OrderedStart`), at every point of the sequential run that `v2_linearizable` relates
+the concurrent execution to, the snapshot of every handle of the ring is a prefix of the stored ring;
+therefore whenever the handle's next operation succeeds from that (possibly stale) snapshot, the same
+operation started from a *fresh* snapshot of the stored ring prepares the same transactions, stores the
+same ring and returns the same result. (An operation that fails its optimistic check from a stale
+snapshot has no effect and refreshes the snapshot – `atomicOp`.) -/
+theorem stale_success_is_fresh_success (s0 : St) (h0 : Initial s0) (p : Nat) (hp : OrderedStart s0 p) (sched : List Nat)
+    (i : Nat) (hi : (s0.h i).path = p) :
+    let a := atomicRun (AState.init s0) (linTrace s0 sched)
+    SnapPrefix (a.snap i) (a.cur p) ∧
+    ∀ op txs r' sn', atomicOp (a.cur p) (a.snap i) op = (r', sn', some txs) →
+      atomicOp (a.cur p) (a.cur p) op = (r', sn', some txs) := by
+  intro a
+  have hinv0 := initial_inv s0 h0
+  have hsim0 : Sim s0 (AState.init s0) :=
+    ⟨fun _ => rfl, fun _ _ _ => rfl, by intro i hi; simp [h0.idle i] at hi,
+     by intro i; simp [resultsOf, AState.init, h0.done i, pending_of_pc (s0.h i) (by simp [h0.idle i])],
+     by simp [committed, AState.init, h0.commits]⟩
+  have h0o : OrdInv p s0 :=
+    ⟨hp.incr, hp.noImport, fun i hi _ => hp.snap i hi,
+     by intro i _ hc; rcases hc with hc | hc <;> simp [h0.idle i] at hc,
+     by intro i _ hc; simp [h0.idle i] at hc⟩
+  have hseq := run_seqPrefix s0.cur p s0 _ sched hinv0 hsim0 h0o (fun j hj => hp.snap j hj) i (by rw [run_path]; exact hi)
+  have hsim := run_sim s0.cur s0 _ sched hinv0 hsim0
+  have hpre : SnapPrefix (a.snap i) (a.cur p) := by rw [hsim.cur p]; exact hseq
+  exact ⟨hpre, fun op txs r' sn' h => atomicOp_fresh _ _ op txs r' sn' hpre h⟩
 
 /-! ## non-vacuity: a concrete race -/
 
@@ -210,5 +339,72 @@ theorem import_race_counterexample :
     (s.h 0).done.map (·.2.isSome) = [true] ∧ (s.h 1).done.map (·.2.isSome) = [true] ∧
     s.cur 0 = ⟨[⟨1, 1, 11⟩], noKey⟩ := by
   refine ⟨by rfl, by rfl, by rfl⟩
+
+/-! ## why `seqnums_unique_increasing` excludes imports and needs the prefix hypothesis -/
+
+def oneRing (cur : Ring) (progs : Nat → Ring × List Op) : St where
+  cur := fun _ => cur
+  new := fun _ => none
+  writer := none
+  readers := []
+  h := fun i => ⟨0, (progs i).1, [], (progs i).2, [], .idle⟩
+  commits := []
+
+/-- **`ImportOverwrite` breaks the order** (the scenario excluded by `OrderedStart.noImport`; needs an
+`ImportOverwrite` delegate, which Acra never installs). Stored ring 1,2; handle 1 holds that snapshot;
+handle 0 overwrites the ring with 1,2,6; handle 1 then adds a key with the number 3 it computed from
+its snapshot – not in the ring, so `txAddKey` appends it: 1,2,6,3 – unique, not increasing. -/
+theorem import_overwrite_order_counterexample :
+    let r12 : Ring := ⟨[⟨1, 1, 10⟩, ⟨2, 1, 11⟩], noKey⟩
+    let s0 := oneRing r12 fun i => (r12, if i = 0 then [.importKeys [⟨1, 1, 10⟩, ⟨2, 1, 11⟩, ⟨6, 1, 12⟩] noKey]
+                                          else if i = 1 then [.addKey 13] else [])
+    Initial s0 ∧ Incr (s0.cur 0) ∧ (∀ i, SnapPrefix (s0.h i).snap (s0.cur 0)) ∧
+    ((run s0 [0, 0, 0, 0, 0, 1, 1, 1, 1, 1]).cur 0).seqs = [1, 2, 6, 3] ∧
+    ¬ Incr ((run s0 [0, 0, 0, 0, 0, 1, 1, 1, 1, 1]).cur 0) := by
+  exact ⟨⟨rfl, rfl, fun _ => rfl, rfl, fun _ => rfl, fun _ => rfl⟩, by decide, fun _ => snapPrefix_refl _, by rfl, by decide⟩
+
+/-- **One import next to a stale handle breaks the order, too** (same class as the known finding
+`import-race-lost-update`: the existence check of the import runs outside the lock that protects its
+write). Empty ring; handle 1 holds the empty snapshot; handle 0 imports 5,6; handle 1 adds a key with
+number 1: 5,6,1. -/
+theorem import_stale_add_counterexample :
+    let s0 := oneRing ⟨[], noKey⟩ fun i => (⟨[], noKey⟩, if i = 0 then [.importKeys [⟨5, 1, 10⟩, ⟨6, 1, 11⟩] noKey]
+                                          else if i = 1 then [.addKey 13] else [])
+    Initial s0 ∧ ((run s0 [0, 0, 0, 0, 0, 1, 1, 1, 1, 1]).cur 0).seqs = [5, 6, 1] := by
+  exact ⟨⟨rfl, rfl, fun _ => rfl, rfl, fun _ => rfl, fun _ => rfl⟩, by rfl⟩
+
+/-- **The prefix hypothesis is needed** (no import involved): a ring with a gap in its numbering
+(1,2,6 – only an import produces one) and a handle whose snapshot 1,2 is not a prefix in the sense of
+`SnapPrefix` (the ring does not continue with 3): the handle appends 3 after 6. -/
+theorem stale_gap_counterexample :
+    let s0 := oneRing ⟨[⟨1, 1, 10⟩, ⟨2, 1, 11⟩, ⟨6, 1, 12⟩], noKey⟩ fun i =>
+      (⟨[⟨1, 1, 10⟩, ⟨2, 1, 11⟩], noKey⟩, if i = 0 then [.addKey 13] else [])
+    Initial s0 ∧ Incr (s0.cur 0) ∧ (∀ i, ∀ op ∈ (s0.h i).todo, NoImport op) ∧
+    ((run s0 [0, 0, 0, 0, 0]).cur 0).seqs = [1, 2, 6, 3] := by
+  refine ⟨⟨rfl, rfl, fun _ => rfl, rfl, fun _ => rfl, fun _ => rfl⟩, by decide, ?_, by rfl⟩
+  intro i op hop
+  by_cases hi : i = 0
+  · subst hi; simp [oneRing] at hop; subst hop; trivial
+  · simp [oneRing, hi] at hop
+
+/-! ## non-vacuity of the new hypotheses -/
+
+/-- `OrderedStart` holds of the race `demo` (fresh empty snapshots, only `AddKey`s) -/
+example : OrderedStart demo 0 :=
+  ⟨by decide, fun _ _ => snapPrefix_refl _, by
+    intro i _ op hop
+    by_cases h0 : i = 0
+    · subst h0; simp [demo] at hop; subst hop; trivial
+    · by_cases h1 : i = 1
+      · subst h1; simp [demo] at hop; rcases hop with rfl | rfl <;> trivial
+      · simp [demo, h0, h1] at hop⟩
+
+/-- a genuinely stale prefix snapshot: stored 1,2,3, snapshot 1 -/
+example : SnapPrefix ⟨[⟨1, 1, 10⟩], noKey⟩ ⟨[⟨1, 1, 10⟩, ⟨2, 1, 11⟩, ⟨3, 1, 12⟩], noKey⟩ := ⟨2, by decide⟩
+
+/-- the sequential run of the race `demo`: thread 1's first `AddKey` is linearised as a failure (stale
+snapshot), its retry as a success -/
+example : (resultsOf (atomicRun (AState.init demo) (linTrace demo [0, 1, 0, 0, 0, 0, 1, 1, 1, 1, 1, 1, 1, 1])).log 1).map (·.2.isSome)
+    = [false, true] := by rfl
 
 end AcraModel.Props.C17
